@@ -41,6 +41,7 @@ type FuncContract struct {
 	Ensures  []*Clause
 	Modifies []ModLoc
 	HasMod   bool
+	Relies   []ModLoc // locations other goroutines may change at blocking points
 	Loops    map[int][]*Clause
 	Calls    []*Clause // asserts at call sites
 	Flags    map[string]bool
@@ -247,6 +248,17 @@ func (cs *Contracts) parseLine(cur **FuncContract, t, path string, ln int, pkgPa
 				return errf("%v", err)
 			}
 			(*cur).Modifies = append((*cur).Modifies, ModLoc{part, e})
+		}
+	case "rely":
+		if *cur == nil {
+			return errf("rely outside function contract")
+		}
+		for _, part := range splitTop(rest) {
+			e, err := parseExpr(part)
+			if err != nil {
+				return errf("%v", err)
+			}
+			(*cur).Relies = append((*cur).Relies, ModLoc{part, e})
 		}
 	case "flags":
 		if *cur == nil {
